@@ -53,7 +53,7 @@ TReset ==
   /\ UNCHANGED div
 
 TIgnored == l <= N /\ E.e # "Reset" /\ ign /\ Skip
-TOther == l <= N /\ ~ign /\ E.e \in {"Mem", "SrcCheck", "DropElem", "CloneElem", "Partial", "End"} /\ Skip
+TOther == l <= N /\ ~ign /\ E.e \in {"Mem", "SrcCheck", "DropElem", "CloneElem", "Partial", "End", "HintRead"} /\ Skip
 TStop == /\ l <= N /\ ~ign /\ E.e \in {"Hang", "Abort"}
          /\ l' = l + 1 /\ ign' = TRUE /\ UNCHANGED <<vars, run, expv, div, cnt>>
 
